@@ -1,0 +1,85 @@
+//go:build verif
+
+package syntax
+
+import "io"
+
+// Verification hooks for the reader (Parser.rune, fill, peek, peekTwo,
+// zshNumRange, nextPos) and for the Pos helpers. Add-only; compiled only with
+// the "verif" build tag.
+
+// VerifReaderObs is what one reader operation left behind.
+type VerifReaderObs struct {
+	Op   byte   // 'R' rune, 'P' peek, 'T' peekTwo, 'Z' zshNumRange
+	R    rune   // p.r after the operation
+	W    int    // p.w after the operation
+	B1   byte   // peek / first peekTwo byte
+	B2   byte   // second peekTwo byte
+	Z    bool   // zshNumRange result
+	Offs int64  // p.offs+p.bsp-p.w, unsaturated
+	Line int64  // p.line
+	Col  int64  // p.col
+	Left int    // len(p.bs)-p.bsp (may be negative after EOF)
+	Pos  Pos    // p.nextPos()
+	Err  bool   // p.err != nil
+	EPos Pos    // position of the ParseError, if any
+	EMsg string // text of the error, if any
+}
+
+// VerifReaderScript resets a parser, sets the two backquote counters the
+// reader looks at, and executes the given operations in order, recording the
+// state after each one.
+func VerifReaderScript(r io.Reader, openBquotes, openBquoteDbls int, script []byte) []VerifReaderObs {
+	p := NewParser()
+	p.reset()
+	p.f = &File{}
+	p.src = r
+	p.openBquotes = openBquotes
+	p.openBquoteDbls = openBquoteDbls
+	out := make([]VerifReaderObs, 0, len(script))
+	for _, op := range script {
+		o := VerifReaderObs{Op: op}
+		switch op {
+		case 'R':
+			p.rune()
+		case 'P':
+			o.B1 = p.peek()
+		case 'T':
+			o.B1, o.B2 = p.peekTwo()
+		case 'Z':
+			o.Z = p.zshNumRange()
+		}
+		o.R, o.W = p.r, p.w
+		o.Offs = p.offs + int64(p.bsp) - int64(p.w)
+		o.Line, o.Col = p.line, p.col
+		o.Left = len(p.bs) - int(p.bsp)
+		o.Pos = p.nextPos()
+		if p.err != nil {
+			o.Err = true
+			if pe, ok := p.err.(ParseError); ok {
+				o.EPos = pe.Pos
+				o.EMsg = pe.Text
+			} else {
+				o.EMsg = p.err.Error()
+			}
+		}
+		out = append(out, o)
+	}
+	return out
+}
+
+// VerifNextPos evaluates Parser.nextPos on the given bookkeeping values.
+func VerifNextPos(offs int64, bsp uint, w int, line, col int64) Pos {
+	p := &Parser{}
+	p.offs, p.bsp, p.w, p.line, p.col = offs, bsp, w, line, col
+	return p.nextPos()
+}
+
+// VerifPosAddCol exposes posAddCol.
+func VerifPosAddCol(p Pos, n int) Pos { return posAddCol(p, n) }
+
+// VerifPosRaw exposes the two packed words of a Pos.
+func VerifPosRaw(p Pos) (offs, lineCol uint32) { return p.offs, p.lineCol }
+
+// VerifBufSize is the size of the read buffer.
+const VerifBufSize = bufSize
